@@ -114,7 +114,7 @@ def crc32(data):
     return zlib.crc32(data) & 0xffffffff
 
 
-TRANSFORMS = ['identity', 'gabi', 'zdebug', 'debuglink', 'debuglink_badcrc', 'altlink', 'debug_sup', 'gabi_badsize', 'zdebug_badsize', 'rel_plain', 'rel_gabi']
+TRANSFORMS = ['identity', 'gabi', 'zdebug', 'debuglink', 'debuglink_badcrc', 'altlink', 'debug_sup', 'gabi_badsize', 'zdebug_badsize', 'rel_plain', 'rel_gabi', 'debuglink_altlink', 'debuglink_debugsup']
 LINK_NAMES = [b'd.dbg', b'dd.dbg', b'ddd.dbg', b'dddd.dbg', b'x/deep/path/file.debug']
 
 
@@ -136,6 +136,21 @@ def build(payload, transform, level, namei=0):
         link = fn + b'\0' + b'\0' * ((-(len(fn) + 1)) % 4) + f.word(crc)
         data, _ = elfwrap.wrap({}, cls, le, machine=machine, extra=[eg.Sec('.gnu_debuglink', 1, data=link, align=4, file_align=4)])
         files[fn] = dbg
+    elif transform in ('debuglink_altlink', 'debuglink_debugsup'):
+        # the usual dwz debug-package chain: stripped file -> (checksum-verified link) -> debug file -> (alt link / .debug_sup) -> common file
+        sup_secs, _m = payloads.make('v4', le, 32, cls // 8)
+        sup, _ = elfwrap.wrap({k: v for k, v in sup_secs.items() if k in ('.debug_info', '.debug_abbrev', '.debug_str')}, cls, le, machine=machine, seed=9)
+        fn2 = b'common.dwz'
+        if transform == 'debuglink_altlink':
+            extra = [eg.Sec('.gnu_debugaltlink', 1, data=fn2 + b'\0' + bytes(range(20)))]
+        else:
+            extra = [eg.Sec('.debug_sup', 1, data=struct.pack(f.o + 'hB', 5, 0) + fn2 + b'\0' + b'\x14' + bytes(range(20)))]
+        dbg, _ = elfwrap.wrap(secs, cls, le, machine=machine, seed=5, extra=extra)
+        fn = LINK_NAMES[namei % len(LINK_NAMES)]
+        link = fn + b'\0' + b'\0' * ((-(len(fn) + 1)) % 4) + f.word(crc32(dbg))
+        data, _ = elfwrap.wrap({}, cls, le, machine=machine, extra=[eg.Sec('.gnu_debuglink', 1, data=link, align=4, file_align=4)])
+        files[fn] = dbg
+        files[fn2] = sup
     elif transform in ('altlink', 'debug_sup'):
         sup_secs, _m = payloads.make('v4', le, 32, cls // 8)
         sup, _ = elfwrap.wrap({k: v for k, v in sup_secs.items() if k in ('.debug_info', '.debug_abbrev', '.debug_str')}, cls, le, machine=machine, seed=9)
@@ -240,11 +255,11 @@ def _check(desc):
         return [('ELFFile()', 'constructs', elf)], True, repr(elf), data
     ident = identity_dump(desc['pi'])
     follow = desc['follow_links']
-    stripped = t in ('debuglink', 'debuglink_badcrc')
+    stripped = t in ('debuglink', 'debuglink_badcrc', 'debuglink_altlink', 'debuglink_debugsup')
     has_strict = guarded(elf.has_dwarf_info, True)
     if has_strict is not (not stripped):
         fails.append(('has_dwarf_info(strict=True)', not stripped, has_strict))
-    if t in ('debuglink', 'debuglink_badcrc'):
+    if stripped:
         hl = guarded(elf.has_dwarf_link)
         gl = guarded(lambda: (lambda l: (l.filename, l.checksum))(elf.get_dwarf_link()))
         fn = LINK_NAMES[desc['name'] % len(LINK_NAMES)]
@@ -282,7 +297,7 @@ def _check(desc):
             outc = d
             if d != ident:
                 fails.append(('full dump vs identity', 'equal', _first_diff(ident, d)))
-            if t in ('altlink', 'debug_sup'):
+            if t in ('altlink', 'debug_sup', 'debuglink_altlink', 'debuglink_debugsup'):
                 sup = got.supplementary_dwarfinfo
                 want_sup = follow and desc['loader']
                 if (sup is not None) != want_sup:
@@ -291,7 +306,7 @@ def _check(desc):
                     g = guarded(lambda: [cu.cu_offset for cu in sup.iter_CUs()])
                     if g != [0]:
                         fails.append(('supplementary units', [0], g))
-                if not want_sup and loads:
+                if not want_sup and loads and not stripped:
                     fails.append(('stream_loader calls', [], loads))
     return fails, True, (t, core.digest(outc if isinstance(outc, str) else repr(outc))), data
 
